@@ -6,8 +6,8 @@ from ..model import cov
 PROPERTY = "C11"
 LEVEL = "exploration"
 RULE = ("cases = generated covergroups with 2-3 coverpoints (bit_t 2..4 bits) whose bins are pairwise disjoint by "
-        "construction (single bins, bin arrays with and without a count in any position, auto-bins, gaps that miss every "
-        "bin), one cross over 2..3 of them, iff conditions (field or callable) on coverpoints and on the cross; sample "
+        "construction (single bins, bin arrays with and without a count in any position and over several ranges/values, "
+        "ignore bins beside and inside a bin's range, auto-bins, wildcard bins, gaps that miss every bin), one cross over 2..3 of them, iff conditions (field or callable) on coverpoints and on the cross; sample "
         "sequences of generated values with the gates toggling.  Oracle: cross bins = row-major product of the coverpoints' "
         "flat bins, named <n1,n2[,n3]> after the coverpoints' own bin names; per sample exactly the combination's bin is "
         "incremented iff every gate holds and every coverpoint hit, otherwise nothing changes.  non-trivial = the sequence "
@@ -56,27 +56,53 @@ def gen_cp(d, idx, w):
         cp["bins"] = bins
         return cp
     # cut the value range into consecutive segments
-    cuts = sorted(set(d.sample(list(range(1, hi + 1)), d.randint(1, min(4, hi)))))
+    cuts = sorted(set(d.sample(list(range(1, hi + 1)), d.randint(1, min(5, hi)))))
     segs = []
     lo = 0
     for c in cuts + [hi + 1]:
         segs.append((lo, c - 1))
         lo = c
     order = d.sample(segs, len(segs))      # declaration order need not be ascending
+    item = lambda a, b: [a, b] if a != b else a
     bins = []
-    for i, (a, b) in enumerate(order):
+    ignore = []
+    i = 0
+    while i < len(order):
+        a, b = order[i]
         r = d.randint(0, 99)
-        if r < 20:
+        if r < 15:
+            i += 1
             continue                        # gap: values that miss every bin
-        if r < 55 or a == b:
-            bins.append({"name": "s%d" % i, "kind": "bin", "items": [[a, b]] if a != b else [a]})
-        elif r < 80:
-            bins.append({"name": "a%d" % i, "kind": "arr", "n": None, "items": [[a, b]]})
+        if r < 25:
+            ignore.append({"name": "ig%d" % i, "items": [item(a, b)]})
+            i += 1
+            continue
+        if r < 50 or (a == b and r < 60):
+            bins.append({"name": "s%d" % i, "kind": "bin", "items": [item(a, b)]})
+            i += 1
+        elif r < 85:
+            # a bin array (no count: one bin per value) over ONE OR SEVERAL segments: ranges and single values mixed,
+            # so that the coverpoint's flat bin index is not the member's position
+            k = d.randint(1, min(3, len(order) - i))
+            items = [item(*order[i + j]) for j in range(k)]
+            bins.append({"name": "a%d" % i, "kind": "arr", "n": None, "items": items})
+            i += k
         else:
+            k = d.randint(1, min(2, len(order) - i))
+            items = [item(*order[i + j]) for j in range(k)]
             bins.append({"name": "n%d" % i, "kind": "arr", "n": d.randint(1, 3), "nstyle": d.choice(["list", "int"]),
-                         "items": [[a, b]]})
+                         "items": items})
+            i += k
     if not bins:
         bins.append({"name": "s0", "kind": "bin", "items": [[0, hi]]})
+    if ignore and d.chance(70):
+        cp["ignore"] = ignore
+    elif d.chance(15):
+        # an ignore bin INSIDE a bin array's range splits it
+        arrs = [b for b in bins if b["kind"] == "arr" and isinstance(b["items"][0], list) and b["items"][0][1] - b["items"][0][0] >= 2]
+        if arrs:
+            a0, b0 = arrs[0]["items"][0]
+            cp["ignore"] = [{"name": "igm", "items": [d.randint(a0 + 1, b0 - 1)]}]
     cp["bins"] = bins
     return cp
 
